@@ -698,7 +698,7 @@ def gen_spect(rng, big):
                 refs=[rng.randint(0, 3) for _ in range(n)] if has_ref else None, Wf=rng.choice([1, 3]),
                 tokens_only=rng.random() < 0.5, bs=rng.randint(1, 5), nb=rng.choice([1, 2, 2, 3, 3, 4]),
                 dyn=rng.random() < 0.5, drop=rng.random() < 0.5, shuffle=rng.random() < 0.6,
-                seed=rng.randint(0, 10 ** 6), sort=rng.random() < 0.5, bf=rng.random() < 0.5,
+                seed=rng.choice([0, 0, 1, rng.randint(0, 10 ** 6), rng.randint(0, 10 ** 6)]), sort=rng.random() < 0.5, bf=rng.random() < 0.5,
                 su=rng.random() < 0.5, sa=rng.random() < 0.5, e0=rng.randint(0, 3), k=rng.randint(0, 2),
                 peek=rng.choice([None, 0, 1, 1, 2, 3]), inter=rng.random() < 0.3)
 
@@ -707,7 +707,7 @@ def gen_lang(rng, big):
     n = rng.choice([0, 1, 2, 3, 4, 5, 6, 7, 8])
     return dict(kind="lang", lens=gen_lens(rng, n, 5), Wf=rng.choice([1, 3]), tokens_only=rng.random() < 0.5,
                 bs=rng.randint(1, 4), nb=rng.choice([1, 2, 2, 3, 4]), dyn=rng.random() < 0.5,
-                drop=rng.random() < 0.5, shuffle=rng.random() < 0.5, seed=rng.randint(0, 10 ** 6),
+                drop=rng.random() < 0.5, shuffle=rng.random() < 0.5, seed=rng.choice([0, 0, 1, rng.randint(0, 10 ** 6), rng.randint(0, 10 ** 6)]),
                 sort=rng.random() < 0.5, bf=rng.random() < 0.5, su=rng.random() < 0.4,
                 e0=rng.randint(0, 2), k=rng.randint(0, 1), peek=rng.choice([None, 0, 1, 1, 2, 3]),
                 inter=rng.random() < 0.3)
@@ -718,7 +718,7 @@ def gen_cw(rng, big):
     return dict(kind="cw", lens=gen_lens(rng, n, 4), F=rng.choice([1, 2]), alis=rng.random() < 0.6, refs=None, Wf=1,
                 bs=rng.randint(1, 4), drop=rng.random() < 0.5, left=rng.randint(0, 3), right=rng.randint(0, 3),
                 reverse=rng.random() < 0.5, su=rng.random() < 0.5, shuffle=rng.random() < 0.5,
-                seed=rng.randint(0, 10 ** 6), e0=rng.randint(0, 2), k=rng.randint(0, 1),
+                seed=rng.choice([0, 0, 1, rng.randint(0, 10 ** 6), rng.randint(0, 10 ** 6)]), e0=rng.randint(0, 2), k=rng.randint(0, 1),
                 peek=rng.choice([None, None, 1, 2]), inter=False)
 
 
